@@ -16,7 +16,9 @@ The independent whole-file reader, written from the Parquet format description.
   values    := PLAIN | <1-byte bit width> <RLE hybrid dictionary indices>
 
 `read` accepts a byte string only if every structural claim the file makes about itself is
-true (C05) and returns the table it contains (C06).  It shares nothing with carquet.
+true (C05) — including the byte sizes its metadata state: `total_compressed_size` (the chunk's extent),
+`total_uncompressed_size` (Σ page header + uncompressed page) and `RowGroup.total_byte_size`
+(Σ of the chunks' `total_uncompressed_size`) — and returns the table it contains (C06).  It shares nothing with carquet.
 -/
 namespace Carquet.Spec.File
 open Carquet.Spec
@@ -268,6 +270,21 @@ def readChunk (cfg : Config) (leaf : LeafInfo) (m : ColumnMeta) (start : Nat) (b
   | [] => pure ()
   pure es
 
+/-- `total_uncompressed_size` of a chunk as its pages state it: parquet.thrift defines it as the "total
+byte size of all uncompressed pages in this column chunk (including the headers)", i.e. Σ over the pages
+of (length of the page header + `uncompressed_page_size`).  It is evaluated on the bytes of a chunk that
+`readChunk` has accepted, so every `uncompressed_page_size` is the true length of the decompressed page
+and the pages fill the chunk exactly.  (fuel: one unit per page) -/
+def chunkUsize : Nat → Bytes → Option Nat
+  | 0, _ => none
+  | fuel + 1, bs =>
+    if bs = [] then some 0
+    else
+      match parsePageHeader bs with
+      | .error _ => none
+      | .ok (h, rest) =>
+        (chunkUsize fuel (rest.drop h.compressed)).map (fun n => (bs.length - rest.length) + h.uncompressed + n)
+
 /-! ### row groups -/
 
 def chunkStart (m : ColumnMeta) : Nat :=
@@ -286,6 +303,8 @@ def readChunks (cfg : Config) (file : Bytes) (footerStart : Nat) :
     if cfg.strictTiling && chunkStart m < pos then throw .chunksOverlap
     if cfg.strictTiling && chunkStart m > pos then throw .chunksLeaveGap
     let es ← readChunk cfg leaf m (chunkStart m) ((file.drop (chunkStart m)).take m.totalCompressed)
+    if chunkUsize (m.totalCompressed + 1) ((file.drop (chunkStart m)).take m.totalCompressed) ≠ some m.totalUncompressed then
+      throw .chunkUncompressedSizeMismatch
     let (rest, pos') ← readChunks cfg file footerStart ls ms (chunkStart m + m.totalCompressed)
     pure (es :: rest, pos')
   | _, _, _ => .error .columnCountMismatch
@@ -297,6 +316,8 @@ def readRowGroups (cfg : Config) (file : Bytes) (footerStart : Nat) (leaves : Li
     let (chunks, pos') ← readChunks cfg file footerStart leaves g.columns pos
     if !(List.zipWith (fun (l : LeafInfo) c => rowsOf l.maxRep c == g.numRows) leaves chunks).all id then
       throw .rowGroupRowCountMismatch
+    -- RowGroup.total_byte_size: "Total byte size of all the uncompressed column data in this row group"
+    if (g.columns.map (·.totalUncompressed)).sum ≠ g.totalByteSize then throw .rowGroupByteSizeMismatch
     let (rest, pos'') ← readRowGroups cfg file footerStart leaves gs pos'
     pure (⟨chunks⟩ :: rest, pos'')
 
